@@ -2376,13 +2376,26 @@ static iwrc _lx_split_addkv(struct iwlctx *lx, int idx, struct sblk *sblk) {
 
   pthread_spin_lock(&db->cursors_slk);
   for (struct iwkv_cursor *cur = db->cursors; cur; cur = cur->next) {
-    if (cur->cn && (cur->cn->addr == sblk->addr)) {
-      if (cur->cnpos >= pivot) {
+    if (!cur->cn) {
+      continue;
+    }
+    if (cur->cn->addr == sblk->addr) {
+      if (!uside && (cur->cnpos >= pivot)) {
         memcpy(cur->cn, nb, sizeof(*cur->cn));
         cur->cn->kvblk = 0;
         cur->cn->flags &= SBLK_PERSISTENT_FLAGS;
         cur->cnpos -= pivot;
+      } else if (cur->cn != sblk) {
+        // The node got a new successor and may have lost its upper part
+        memcpy(cur->cn, sblk, sizeof(*cur->cn));
+        cur->cn->kvblk = 0;
+        cur->cn->flags &= (SBLK_PERSISTENT_FLAGS | SBLK_DB);
       }
+    } else if ((cur->cn->addr == lx->pupper[0]->addr) && (cur->cn != lx->pupper[0])) {
+      // The back link of the following node points to the new node now
+      memcpy(cur->cn, lx->pupper[0], sizeof(*cur->cn));
+      cur->cn->kvblk = 0;
+      cur->cn->flags &= (SBLK_PERSISTENT_FLAGS | SBLK_DB);
     }
   }
   pthread_spin_unlock(&db->cursors_slk);
